@@ -218,4 +218,73 @@ pub proof fn lemma_slippage_monotone(m1: Decimal, m2: Decimal, ret: nat, slip: n
 {
 }
 
+
+// ---------------------------------------------------------------- deposit slippage tolerance (C13)
+pub uninterp spec fn compute_d_spec(amp: u64, deposits: Seq<Coin>) -> Option<Uint512>;
+pub open spec fn no_zero_reserve(assets: Seq<Coin>) -> bool { forall|i: int| 0 <= i < assets.len() ==> (#[trigger] assets[i]).amount@ != 0 }
+/// constant product: neither deposit ratio, shrunk by the tolerance, exceeds the corresponding pool ratio (18-decimals floors)
+pub open spec fn cp_deposit_ok(d0: nat, d1: nat, p0: nat, p1: nat, tol: nat) -> bool {
+    d0 > 0 && d1 > 0 && p0 > 0 && p1 > 0
+    && !((((d0 * DEC) / d1) * ((DEC - tol) as nat)) / DEC > (p0 * DEC) / p1)
+    && !((((d1 * DEC) / d0) * ((DEC - tol) as nat)) / DEC > (p1 * DEC) / p0)
+}
+/// stableswap, as coded: accepted iff (sqrt(D1)/sqrt(D0))^2 (18-decimals floors) does not exceed the tolerance
+pub open spec fn ss_deposit_ok(d0_sqrt: nat, d1_sqrt: nat, tol: nat) -> bool {
+    d0_sqrt > 0 && !((((d1_sqrt * DEC) / d0_sqrt) * ((d1_sqrt * DEC) / d0_sqrt)) / DEC > tol)
+}
+
+// @lemma cp_exact_proportion_accepted [C13]
+/// a constant-product deposit in exact pool proportion is accepted under any valid tolerance
+pub proof fn lemma_cp_exact_proportion(d0: nat, d1: nat, p0: nat, p1: nat, tol: nat)
+    requires d0 > 0, d1 > 0, p0 > 0, p1 > 0, d0 * p1 == d1 * p0, tol <= DEC,
+    ensures cp_deposit_ok(d0, d1, p0, p1, tol),
+{
+    lemma_ratio_eq(d0, d1, p0, p1);
+    lemma_ratio_eq(d1, d0, p1, p0);
+    lemma_shrink_le((d0 * DEC) / d1, tol);
+    lemma_shrink_le((d1 * DEC) / d0, tol);
+}
+proof fn lemma_ratio_eq(a: nat, b: nat, c: nat, d: nat)
+    requires b > 0, d > 0, a * d == b * c || a * d == c * b,
+    ensures (a * DEC) / b == (c * DEC) / d,
+{
+    // (a*DEC)/b == (a*DEC*d)/(b*d) == (c*DEC*b)/(d*b) == (c*DEC)/d
+    vstd::arithmetic::div_mod::lemma_div_multiples_vanish_quotient(d as int, (a * DEC) as int, b as int);
+    vstd::arithmetic::div_mod::lemma_div_multiples_vanish_quotient(b as int, (c * DEC) as int, d as int);
+    assert(d * (a * DEC) == b * (c * DEC)) by (nonlinear_arith) requires a * d == b * c || a * d == c * b;
+    assert(d * b == b * d) by (nonlinear_arith);
+}
+proof fn lemma_shrink_le(r: nat, tol: nat)
+    requires tol <= DEC,
+    ensures (r * ((DEC - tol) as nat)) / DEC <= r,
+{
+    assert(r * ((DEC - tol) as nat) <= r * DEC) by (nonlinear_arith) requires tol <= DEC;
+    vstd::arithmetic::div_mod::lemma_div_is_ordered((r * ((DEC - tol) as nat)) as int, (r * DEC) as int, DEC as int);
+    vstd::arithmetic::div_mod::lemma_div_multiples_vanish(r as int, DEC as int);
+}
+
+// @lemma cp_tolerance_monotone [C13]
+/// within the valid range a larger tolerance never rejects what a smaller one accepts
+pub proof fn lemma_cp_tolerance_monotone(d0: nat, d1: nat, p0: nat, p1: nat, t1: nat, t2: nat)
+    requires t1 <= t2, t2 <= DEC, cp_deposit_ok(d0, d1, p0, p1, t1),
+    ensures cp_deposit_ok(d0, d1, p0, p1, t2),
+{
+    let r0 = (d0 * DEC) / d1;
+    let r1 = (d1 * DEC) / d0;
+    assert(r0 * ((DEC - t2) as nat) <= r0 * ((DEC - t1) as nat)) by (nonlinear_arith) requires t1 <= t2, t2 <= DEC;
+    assert(r1 * ((DEC - t2) as nat) <= r1 * ((DEC - t1) as nat)) by (nonlinear_arith) requires t1 <= t2, t2 <= DEC;
+    vstd::arithmetic::div_mod::lemma_div_is_ordered((r0 * ((DEC - t2) as nat)) as int, (r0 * ((DEC - t1) as nat)) as int, DEC as int);
+    vstd::arithmetic::div_mod::lemma_div_is_ordered((r1 * ((DEC - t2) as nat)) as int, (r1 * ((DEC - t1) as nat)) as int, DEC as int);
+}
+
+// @lemma ss_deposit_tolerance_usable [C13]
+/// C13 ("protections are usable on every pool type"): a stableswap deposit that grows the invariant (D1 >= D0, as every
+/// deposit does) must be acceptable under SOME valid tolerance below 100%. With the coded predicate this is false:
+/// the ratio (D1/D0) is >= 1, so it exceeds every tolerance < 1 and the deposit is always rejected (finding F4a).
+pub proof fn lemma_ss_deposit_tolerance_usable(d0_sqrt: nat, d1_sqrt: nat, tol: nat)
+    requires d0_sqrt > 0, d1_sqrt >= d0_sqrt, tol == 999_999_999_999_999_999nat,
+    ensures ss_deposit_ok(d0_sqrt, d1_sqrt, tol),
+{
+}
+
 } // verus!
